@@ -63,7 +63,7 @@ let run_x (sg : bool) (init0 : string) (changes : change list) (evs : string lis
   | None -> "REJECT"
   | Some ((rs, idx), log) ->
     let keys l = if l = [] then "-" else String.concat "," (List.map (fun k -> string_of_int (int_of_n k)) l) in
-    let puts = List.filter_map (function OPut (_, nw) -> Some (keys (List.map (fun d -> d.dkey) nw)) | _ -> None) log in
+    let puts = List.filter_map (function OPut (_, nw) -> Some (if nw = [] then "e" else keys (List.map (fun d -> d.dkey) nw)) | _ -> None) log in
     Printf.sprintf "ACC R %s I %s U %s" (show_results rs)
       (match idx with None -> "none" | Some l -> keys l) (dash (String.concat ";" puts))
 
